@@ -219,8 +219,8 @@ class Sym:
                 return s if not isinstance(o, (float, _np.floating)) else Sym(_to_real(s.t))
         ot = s._coerce(o)
         if ot is None:
-            lo = s._lift(o)
-            return NotImplemented if lo is None else lo * s
+            # `sequence * scalar` must fall through to sequence repetition (python asks __rmul__ first)
+            return NotImplemented
         return Sym(ot * s.t)
 
     def __truediv__(s, o):
